@@ -80,6 +80,8 @@ type pmCase struct {
 	Sched   []pmAct `json:"sched"`
 	Seed    int64   `json:"seed"`
 	Bursts  int     `json:"bursts"`
+	Slow    int     `json:"slow"`  // free mode: every bookkeeping step of the master takes this many milliseconds (the scheduler may delay it at will)
+	Storm   int     `json:"storm"` // free mode: this many times, ALL live workers are killed at the same moment
 }
 
 type pmEvent struct {
@@ -106,6 +108,7 @@ type pmCtl struct {
 	events  []pmEvent
 	live    map[int]bool
 	maxLive int
+	slow    time.Duration
 }
 
 func stName(s uint8) string {
@@ -134,6 +137,9 @@ func (c *pmCtl) gate(point string, pid int, state uint8) {
 }
 
 func (c *pmCtl) event(ev string, pid int, state uint8, rc, nc, n int) {
+	if c.slow > 0 && (ev == "add" || ev == "update" || ev == "del") {
+		time.Sleep(c.slow) // the master's goroutine is still inside this bookkeeping step
+	}
 	c.mu.Lock()
 	defer c.mu.Unlock()
 	switch ev {
@@ -280,7 +286,7 @@ func handlePM(raw json.RawMessage) interface{} {
 	defer os.RemoveAll(dir)
 	os.Setenv("VERIF_PM_DIR", dir)
 	pipesBefore, _ := filepath.Glob("/tmp/zinc-server-pipe-*")
-	ctl := &pmCtl{live: map[int]bool{}, open: c.Mode != "sched"}
+	ctl := &pmCtl{live: map[int]bool{}, open: c.Mode != "sched", slow: time.Duration(c.Slow) * time.Millisecond}
 	ctl.cond = sync.NewCond(&ctl.mu)
 	server.VerifPMEvent = ctl.event
 	server.VerifPMGate = ctl.gate
@@ -433,6 +439,23 @@ func handlePM(raw json.RawMessage) interface{} {
 		}
 		reqWG.Wait()
 		time.Sleep(time.Duration(c.Timeout)*time.Second + 900*time.Millisecond)
+		// storms: all live workers die at the same moment (the master learns of several exits at once, while it is busy with one)
+		for st := 0; st < c.Storm; st++ {
+			ctl.mu.Lock()
+			var victims []int
+			for pid := range ctl.live {
+				victims = append(victims, pid)
+			}
+			ctl.mu.Unlock()
+			for _, pid := range victims {
+				syscall.Kill(pid, syscall.SIGKILL)
+			}
+			time.Sleep(time.Duration(400+c.Slow*8) * time.Millisecond)
+			tokn++
+			fire(fmt.Sprintf("/sleep/%d", 30+rnd.Intn(60)), fmt.Sprintf("storm%d", tokn))
+			reqWG.Wait()
+			time.Sleep(time.Duration(300+c.Slow*6) * time.Millisecond)
+		}
 		// a late round: the workers have been idle for longer than --timeout; short requests must be served as usual
 		for j := 0; j < 1+rnd.Intn(c.Max); j++ {
 			tokn++
